@@ -6,7 +6,8 @@ import Enc.Model.Json.CodecChoice
 * `inlineValue c` passes the pointer word by address — same encoder `c`;
 * `mapFast v` is the generic map encoder specialised to string keys and the value encoder `v`;
 * `nilOrQuoted q p` (the `string` option on a `*T` field): `p` for a nil pointer, `q` otherwise; with `q = quoted (ptr x)`
-  and `p = ptr x` this is `ptr (quoted x)`: null for nil, the quoted scalar otherwise; with `q = p` it is `p`.
+  and `p = ptr _` this is `ptr (quoted x)`: null for nil, the quoted scalar otherwise; with `q = ptr x`, `p = ptr _` it is
+  `ptr x`; with `q = p` it is `p`.
 
 `expandD d`: the encoder as a tree to depth `d`: `structRef (t, canAddr)` is THE structType of that key once the
 construction has finished (`table` = the final `seen`), `recur t canAddr` is `constructCodec(t, {}, canAddr)` built on
@@ -19,11 +20,11 @@ def norm : Choice → Choice
   | .inlineValue c => norm c
   | .mapFast v => .map (.prim .string) (norm v)
   | .nilOrQuoted q p =>
-    let q' := norm q
-    let p' := norm p
-    match q' with
-    | .quoted (.ptr x) => if p' == .ptr x then .ptr (.quoted x) else .nilOrQuoted q' p'
-    | _ => if q' == p' then q' else .nilOrQuoted q' p'
+    -- `p` is consulted for a nil pointer only, and a pointer encoder writes `null` for nil whatever its element encoder is
+    match norm q, norm p with
+    | .quoted (.ptr x), .ptr _ => .ptr (.quoted x)
+    | .ptr x, .ptr _ => .ptr x
+    | q', p' => if q' == p' then q' else .nilOrQuoted q' p'
   | .slice c => .slice (norm c)
   | .array n c => .array n (norm c)
   | .ptr c => .ptr (norm c)
